@@ -10,7 +10,7 @@
 use super::*;
 use crate::layout::NdLayout;
 use crate::slice_range::{SliceItem, SliceRange};
-use crate::{NdTensorView, NdTensorViewMut, TensorView};
+use crate::{NdTensor, NdTensorView, NdTensorViewMut, TensorView};
 
 #[inline(always)]
 fn in_buf<T>(p: *const T, base: *const T, len: usize) -> bool {
@@ -383,3 +383,56 @@ fn c06_q_broadcast_read() {
         }
     }
 }
+
+// ---------------------------------------------------------------------------
+// Capacity expansion (has_capacity / expanded_layout, used by append/concat):
+// shared by C06 and C08 ("accepted as non-overlapping for capacity expansion").
+
+/// A contiguous or column-stepped owned tensor with spare Vec capacity: if
+/// `has_capacity(axis, new_size)` says the tensor can grow in place, then in
+/// the grown layout two distinct valid indices never share an offset and every
+/// offset is inside the Vec's capacity.
+macro_rules! expand_capacity {
+    ($name:ident, [$d0:expr, $d1:expr], [$s0:expr, $s1:expr], $cap:expr) => {
+        #[kani::proof]
+        #[kani::unwind(20)]
+        fn $name() {
+            let mut data: Vec<u8> = Vec::with_capacity($cap);
+            let need = ($d0 - 1) * $s0 + ($d1 - 1) * $s1 + 1;
+            let mut k = 0;
+            while k < need {
+                data.push(0);
+                k += 1;
+            }
+            let cap = data.capacity();
+            let t = match NdTensor::<u8, 2>::from_data_with_strides([$d0, $d1], data, [$s0, $s1]) {
+                Ok(t) => t,
+                Err(_) => return,
+            };
+            let axis: usize = kani::any();
+            let new_size: usize = kani::any();
+            kani::assume(axis < 2 && new_size <= 8);
+            let ok = t.has_capacity(axis, new_size);
+            kani::cover!(ok && new_size > t.size(axis), "growth accepted");
+            kani::cover!(!ok, "growth rejected");
+            if ok {
+                let mut shape = [$d0, $d1];
+                shape[axis] = new_size;
+                let strides = [$s0, $s1];
+                let i: [usize; 2] = kani::any();
+                let j: [usize; 2] = kani::any();
+                kani::assume(i[0] < shape[0] && i[1] < shape[1]);
+                kani::assume(j[0] < shape[0] && j[1] < shape[1]);
+                kani::assume(i[0] != j[0] || i[1] != j[1]);
+                let oi = i[0] * strides[0] + i[1] * strides[1];
+                let oj = j[0] * strides[0] + j[1] * strides[1];
+                assert!(oi != oj, "capacity expansion accepted an overlapping layout");
+                assert!(oi < cap && oj < cap, "capacity expansion accepted a layout larger than the buffer");
+            }
+        }
+    };
+}
+expand_capacity!(c08_q_expand_contig_2x2_cap16, [2, 2], [2, 1], 16);
+expand_capacity!(c08_q_expand_contig_3x1_cap12, [3, 1], [1, 1], 12);
+expand_capacity!(c08_t_expand_padded_2x2_cap16, [2, 2], [4, 1], 16);
+expand_capacity!(c06_q_expand_contig_2x3_cap16, [2, 3], [3, 1], 16);
